@@ -96,13 +96,13 @@ theorem nextCh_fresh (o : Opts) (a : Nat) (c x : Bool) (wd : Nat) (u : Rat) :
   simp [nextCh]
 
 theorem nextCh_nil (o : Opts) (a : Nat) (c x : Bool) (wd : Nat) (u : Rat)
-    (h : 0 < o.maxRetries ∧ o.maxRetries < ((a + 1 : Nat) : Int)) :
+    (h : 0 < o.maxRetries ∧ o.maxRetries ≤ (a : Int)) :
     nextCh o ⟨a, false, c, x, wd⟩ u = (⟨a + 1, false, c, x, wd⟩, .chNil) := by
   simp only [nextCh, Bool.false_eq_true, if_false, h, and_self, if_true]
 
 theorem nextCh_timer (o : Opts) (a : Nat) (c x : Bool) (wd : Nat) (u : Rat)
-    (h : ¬ (0 < o.maxRetries ∧ o.maxRetries < ((a + 1 : Nat) : Int))) :
-    nextCh o ⟨a, false, c, x, wd⟩ u = (⟨a + 1, false, c, x, wd + 1⟩, .chTimer (a + 1) u) := by
+    (h : ¬ (0 < o.maxRetries ∧ o.maxRetries ≤ (a : Int))) :
+    nextCh o ⟨a, false, c, x, wd⟩ u = (⟨a + 1, false, c, x, wd + 1⟩, .chTimer a u) := by
   simp only [nextCh, Bool.false_eq_true, if_false, h]
 
 theorem reset_live (a : Nat) (r : Bool) (wd : Nat) : reset ⟨a, r, false, false, wd⟩ = ⟨0, true, false, false, 0⟩ := by
@@ -175,7 +175,7 @@ theorem yields_le_budget (o : Opts) (m : Nat) (ho : o.maxRetries = (m : Int)) (h
         have := ih' ⟨a, false, c, x, wd⟩
         simp [Out.isYield] at this ⊢; omega
       | false =>
-        by_cases hd : 0 < o.maxRetries ∧ o.maxRetries < ((a + 1 : Nat) : Int)
+        by_cases hd : 0 < o.maxRetries ∧ o.maxRetries ≤ (a : Int)
         · simp only [nextCh_nil _ _ _ _ _ _ hd]
           have := ih' ⟨a + 1, false, c, x, wd⟩
           simp [Out.isYield] at this ⊢; omega
@@ -289,30 +289,34 @@ theorem stopped_step (o : Opts) (s : St) (op : Op) (hs : s.stopped = true) :
     cases r with
     | true => simpa [step, nextCh_fresh, St.stopped] using hs'
     | false =>
-      by_cases hd : 0 < o.maxRetries ∧ o.maxRetries < ((a + 1 : Nat) : Int)
+      by_cases hd : 0 < o.maxRetries ∧ o.maxRetries ≤ (a : Int)
       · simpa [step, nextCh_nil _ _ _ _ _ _ hd, St.stopped] using hs'
       · simpa [step, nextCh_timer _ _ _ _ _ _ hd, St.stopped] using hs'
 
 
 /-! ### simulation with the monitor -/
 
-/-- simulation between the loop and the monitor of the property -/
-def Sim (s : St) (m : Mon) : Prop :=
+/-- simulation between the loop and the monitor of the property.  Third alternative of the last
+clause: the attempts are used up (`NextCh` keeps counting after it has returned nil). -/
+def Sim (o : Opts) (s : St) (m : Mon) : Prop :=
   m.stopped = s.stopped ∧ m.fresh = s.isReset ∧
   (s.isReset = true → s.attempt = 0 ∧ m.k = 0) ∧
-  (s.isReset = false → m.k = s.attempt + 1 ∨ s.stopped = true)
+  (s.isReset = false → m.k = s.attempt + 1 ∨ s.stopped = true ∨
+    (0 < o.maxRetries ∧ o.maxRetries + 1 ≤ (m.k : Int) ∧ o.maxRetries ≤ (s.attempt : Int)))
 
-theorem sim_start (c x : Bool) : Sim (start c x) (Mon.init (c || x)) := by
+theorem sim_start (o : Opts) (c x : Bool) : Sim o (start c x) (Mon.init (c || x)) := by
   cases c <;> cases x <;> simp [Sim, start, reset, St.stopped, Mon.init]
 
 theorem lowerNs_zero (o : Opts) (k : Nat) : lowerNs o 0 (k + 1) = (bandLo o k).floor := by
   have : bandLo o k * (1 - 0) = bandLo o k := by grind
   simp [lowerNs, this]
 
+/-- one operation of the loop against the lenient monitor; `NextCh` only while nothing has fired
+(it leaves watching the closer / context to its caller). -/
 theorem sim_step (o : Opts) (hv : Valid o) (hr1 : o.rand ≤ 1) (s : St) (m : Mon) (i : Nat) (op : Op)
-    (hs : Sim s m) (hnc : ∀ u, op ≠ Op.nextCh u)
+    (hs : Sim o s m) (hnc : ∀ u, op = Op.nextCh u → s.stopped = false ∧ 0 ≤ u ∧ u < 1)
     (hu : ∀ u, op = Op.next (.elapses u) → 0 ≤ u ∧ u < 1) :
-    ∃ m' j, Sim (step o s op).1 m' ∧
+    ∃ m' j, Sim o (step o s op).1 m' ∧
       ∀ rest, monRun o 0 true m i (evsOf o s op ++ rest) = monRun o 0 true m' j rest := by
   obtain ⟨a, r, c, x, wd⟩ := s
   obtain ⟨k, st, fr, fi⟩ := m
@@ -321,13 +325,53 @@ theorem sim_step (o : Opts) (hv : Valid o) (hr1 : o.rand ≤ 1) (s : St) (m : Mo
   have h2' : r = fr := h2.symm
   subst h1 h2'
   cases op with
-  | nextCh u => exact absurd rfl (hnc u)
+  | nextCh u =>
+    obtain ⟨hlive, hu0, hu1⟩ := hnc u rfl
+    have hc' : c = false := by cases c <;> simp_all [St.stopped]
+    have hx' : x = false := by cases x <;> simp_all [St.stopped]
+    subst hc' hx'
+    cases r with
+    | true =>
+      obtain ⟨ha, hk⟩ := h3 rfl
+      subst ha hk
+      refine ⟨⟨1, false, false, false⟩, i + 1, ?_, fun rest => ?_⟩
+      · simp [step, nextCh_fresh, Sim, St.stopped]
+      · have : ¬ ((0 : Int) < o.maxRetries ∧ o.maxRetries + 1 ≤ 0) := by omega
+        simp [evsOf, nextCh_fresh, monRun, monBad, monStep, this, Out.delay]
+    | false =>
+      have h4' := h4 rfl
+      by_cases hd : 0 < o.maxRetries ∧ o.maxRetries ≤ (a : Int)
+      · refine ⟨⟨k, false, false, fi⟩, i + 1, ?_, fun rest => ?_⟩
+        · simp only [step, nextCh_nil _ _ _ _ _ _ hd]
+          refine ⟨rfl, rfl, by simp, fun _ => Or.inr (Or.inr ?_)⟩
+          rcases h4' with h | h | h
+          · (try simp only at h ⊢); omega
+          · simp at h
+          · (try simp only at h ⊢); omega
+        · have : (0 : Int) < o.maxRetries ∧ o.maxRetries + 1 ≤ (k : Int) := by
+            rcases h4' with h | h | h
+            · omega
+            · simp at h
+            · exact ⟨h.1, h.2.1⟩
+          simp [evsOf, nextCh_nil _ _ _ _ _ _ hd, monRun, monBad, monStep, this]
+      · have hk : k = a + 1 := by
+          rcases h4' with h | h | h
+          · exact h
+          · simp at h
+          · exact absurd ⟨h.1, h.2.2⟩ hd
+        subst hk
+        refine ⟨⟨a + 2, false, false, false⟩, i + 1, ?_, fun rest => ?_⟩
+        · simp [step, nextCh_timer _ _ _ _ _ _ hd, Sim, St.stopped]
+        · have hle := (retryIn_band o hv hr1 a u hu0 hu1).1
+          have h2 : ¬ (retryIn o a u < lowerNs o 0 (a + 1)) := by
+            rw [lowerNs_zero]; omega
+          simp [evsOf, nextCh_timer _ _ _ _ _ _ hd, monRun, monBad, monStep, h2, hd, Out.delay]
   | close =>
     refine ⟨⟨k, true, r, fi⟩, i + 1, ?_, fun rest => by simp [evsOf, monRun, monBad, monStep]⟩
-    refine ⟨by simp [step, St.stopped], rfl, h3, fun h => Or.inr (by simp [step, St.stopped])⟩
+    refine ⟨by simp [step, St.stopped], rfl, h3, fun h => Or.inr (Or.inl (by simp [step, St.stopped]))⟩
   | cancel =>
     refine ⟨⟨k, true, r, fi⟩, i + 1, ?_, fun rest => by simp [evsOf, monRun, monBad, monStep]⟩
-    refine ⟨by simp [step, St.stopped], rfl, h3, fun h => Or.inr (by simp [step, St.stopped])⟩
+    refine ⟨by simp [step, St.stopped], rfl, h3, fun h => Or.inr (Or.inl (by simp [step, St.stopped]))⟩
   | reset =>
     by_cases hst : (c || x) = true
     · refine ⟨⟨k, (c || x), r, fi⟩, i + 1, ?_, fun rest => by simp [evsOf, monRun, monBad, monStep, hst]⟩
@@ -355,11 +399,11 @@ theorem sim_step (o : Opts) (hv : Valid o) (hr1 : o.rand ≤ 1) (s : St) (m : Mo
           exact ⟨rfl, rfl, h3, h4⟩
         · by_cases hst : (c || x) = true
           · simp [evsOf, next_done _ _ _ _ _ _ hd, monRun, monBad, monStep, hst]
-          · have hk : k = a + 1 := by
-              rcases h4' with h | h
-              · exact h
+          · have : (0 : Int) < o.maxRetries ∧ o.maxRetries + 1 ≤ (k : Int) := by
+              rcases h4' with h | h | h
+              · omega
               · exact absurd h hst
-            have : (0 : Int) < o.maxRetries ∧ o.maxRetries + 1 ≤ (k : Int) := by omega
+              · exact ⟨h.1, h.2.1⟩
             simp [evsOf, next_done _ _ _ _ _ _ hd, monRun, monBad, monStep, hst, this]
       · by_cases hst : (c || x) = true
         · refine ⟨⟨k, (c || x), false, fi⟩, i + 1, ?_, fun rest => ?_⟩
@@ -370,9 +414,10 @@ theorem sim_step (o : Opts) (hv : Valid o) (hr1 : o.rand ≤ 1) (s : St) (m : Mo
           have hx' : x = false := by cases x <;> simp_all
           subst hc' hx'
           have hk : k = a + 1 := by
-            rcases h4' with h | h
+            rcases h4' with h | h | h
             · exact h
             · simp at h
+            · exact absurd ⟨h.1, h.2.2⟩ hd
           subst hk
           cases w with
           | closerFires =>
@@ -388,67 +433,140 @@ theorem sim_step (o : Opts) (hv : Valid o) (hr1 : o.rand ≤ 1) (s : St) (m : Mo
             refine ⟨⟨a + 2, false, false, false⟩, i + 1, ?_, fun rest => ?_⟩
             · simp [step, next_elapses _ _ _ _ hd, Sim, St.stopped]
             · have hle := (retryIn_band o hv hr1 a u hu0 hu1).1
-              have h1 : ¬ ((0 : Int) < o.maxRetries ∧ o.maxRetries + 1 ≤ ((a + 1 : Nat) : Int)) := by omega
               have h2 : ¬ (retryIn o a u < lowerNs o 0 (a + 1)) := by
                 rw [lowerNs_zero]; omega
               simp [evsOf, next_elapses _ _ _ _ hd, monRun, monBad, monStep, h2, hd]
 
+/-- operations during which nothing fires -/
+def LiveOp : Op → Prop
+  | .next (.elapses _) | .nextCh _ | .reset => True
+  | _ => False
+
+theorem live_step (o : Opts) (s : St) (op : Op) (hl : s.stopped = false) (hop : LiveOp op) :
+    (step o s op).1.stopped = false := by
+  obtain ⟨a, r, c, x, wd⟩ := s
+  have hc' : c = false := by cases c <;> simp_all [St.stopped]
+  have hx' : x = false := by cases x <;> simp_all [St.stopped]
+  subst hc' hx'
+  cases op with
+  | close => exact absurd hop (by simp [LiveOp])
+  | cancel => exact absurd hop (by simp [LiveOp])
+  | reset => simp [step, reset_live, St.stopped]
+  | nextCh u =>
+    cases r with
+    | true => simp [step, nextCh_fresh, St.stopped]
+    | false =>
+      by_cases hd : 0 < o.maxRetries ∧ o.maxRetries ≤ (a : Int)
+      · simp [step, nextCh_nil _ _ _ _ _ _ hd, St.stopped]
+      · simp [step, nextCh_timer _ _ _ _ _ _ hd, St.stopped]
+  | next w =>
+    cases w with
+    | closerFires => exact absurd hop (by simp [LiveOp])
+    | ctxFires => exact absurd hop (by simp [LiveOp])
+    | elapses u =>
+      cases r with
+      | true => simp [step, next_fresh, St.stopped]
+      | false =>
+        by_cases hd : 0 < o.maxRetries ∧ o.maxRetries ≤ (a : Int)
+        · simp [step, next_done _ _ _ _ _ _ hd, St.stopped]
+        · simp [step, next_elapses _ _ _ _ hd, St.stopped]
+
+theorem live_evs_no_stop (o : Opts) (s : St) (op : Op) (hl : s.stopped = false) (hop : LiveOp op) :
+    Ev.stop ∉ evsOf o s op := by
+  obtain ⟨a, r, c, x, wd⟩ := s
+  have hc' : c = false := by cases c <;> simp_all [St.stopped]
+  have hx' : x = false := by cases x <;> simp_all [St.stopped]
+  subst hc' hx'
+  cases op with
+  | close => exact absurd hop (by simp [LiveOp])
+  | cancel => exact absurd hop (by simp [LiveOp])
+  | reset => simp [evsOf]
+  | nextCh u =>
+    cases r with
+    | true => simp [evsOf, nextCh_fresh]
+    | false =>
+      by_cases hd : 0 < o.maxRetries ∧ o.maxRetries ≤ (a : Int)
+      · simp [evsOf, nextCh_nil _ _ _ _ _ _ hd]
+      · simp [evsOf, nextCh_timer _ _ _ _ _ _ hd]
+  | next w =>
+    cases w with
+    | closerFires => exact absurd hop (by simp [LiveOp])
+    | ctxFires => exact absurd hop (by simp [LiveOp])
+    | elapses u =>
+      cases r with
+      | true => simp [evsOf, next_fresh]
+      | false =>
+        by_cases hd : 0 < o.maxRetries ∧ o.maxRetries ≤ (a : Int)
+        · simp [evsOf, next_done _ _ _ _ _ _ hd]
+        · simp [evsOf, next_elapses _ _ _ _ hd]
+
+theorem live_trace_no_stop (o : Opts) (s : St) (ops : List Op) (hl : s.stopped = false)
+    (hop : ∀ op ∈ ops, LiveOp op) : Ev.stop ∉ trace o s ops := by
+  induction ops generalizing s with
+  | nil => simp [trace]
+  | cons op ops ih =>
+    simp only [trace, List.mem_append, not_or]
+    exact ⟨live_evs_no_stop o s op hl (hop op List.mem_cons_self),
+      ih _ (live_step o s op hl (hop op List.mem_cons_self)) (fun x hx => hop x (List.mem_cons_of_mem _ hx))⟩
+
+/-- while nothing has fired the strict and the lenient monitor are the same -/
+theorem monRun_strict_of_live (o : Opts) (sl : Rat) (m : Mon) (i : Nat) (es : List Ev)
+    (hm : m.stopped = false) (hes : Ev.stop ∉ es) :
+    monRun o sl false m i es = monRun o sl true m i es := by
+  induction es generalizing m i with
+  | nil => simp [monRun]
+  | cons e es ih =>
+    obtain ⟨k, st, fr, fi⟩ := m
+    simp only at hm; subst hm
+    have hne : e ≠ Ev.stop := fun h => hes (by simp [h])
+    have hes' : Ev.stop ∉ es := fun h => hes (List.mem_cons_of_mem _ h)
+    have hb : monBad o sl false ⟨k, false, fr, fi⟩ e = monBad o sl true ⟨k, false, fr, fi⟩ e := by
+      cases e <;> simp [monBad]
+    have hst : (monStep ⟨k, false, fr, fi⟩ e).stopped = false := by
+      cases e <;> simp_all [monStep]
+    simp only [monRun, hb]
+    cases monBad o sl true ⟨k, false, fr, fi⟩ e with
+    | some c => rfl
+    | none => exact ih _ _ hst hes'
 
 /-! ### WithMaxAttempts loop -/
 
-theorem wmaLoop_spec (o : Opts) (m : Nat) (ho : o.maxRetries = (m : Int)) (hm : 0 < m)
-    (env : List (Wait × Bool)) (s : St) (calls : Nat)
-    (hc : calls + s.isReset.toNat + (m - s.attempt) ≤ m + 1)
-    (h1 : s.isReset = true ∨ 0 < calls) :
-    (wmaLoop o s calls env).calls ≤ m + 1 ∧
-    ((wmaLoop o s calls env).result ≠ none →
-      1 ≤ (wmaLoop o s calls env).calls ∧
-      ((wmaLoop o s calls env).result = some true ↔ (wmaLoop o s calls env).succeeded = true)) ∧
-    (s.isReset.toNat + (m - s.attempt) < env.length → (wmaLoop o s calls env).result ≠ none) := by
+/-- the repaired loop: whatever `Next` does, the guard `calls < n` bounds the calls. -/
+theorem wmaLoop_spec (o : Opts) (n : Int) (env : List (Wait × Bool)) (s : St) (calls : Nat)
+    (hc : (calls : Int) ≤ n) :
+    ((wmaLoop o n s calls env).calls : Int) ≤ n ∧ calls ≤ (wmaLoop o n s calls env).calls ∧
+    ((wmaLoop o n s calls env).result = some true ↔ (wmaLoop o n s calls env).succeeded = true) ∧
+    (n - calls < env.length → (wmaLoop o n s calls env).result ≠ none) := by
   induction env generalizing s calls with
   | nil =>
     simp only [wmaLoop, List.length_nil]
-    exact ⟨by omega, by simp, by omega⟩
+    exact ⟨hc, Nat.le_refl _, by simp, by omega⟩
   | cons e env ih =>
     obtain ⟨w, ok⟩ := e
-    obtain ⟨a, r, c, x, wd⟩ := s
-    simp only [List.length_cons]
-    cases r with
-    | true =>
+    simp only [wmaLoop, List.length_cons]
+    by_cases hg : (calls : Int) < n ∧ (next o s w).2.isYield = true
+    · simp only [hg, and_self, if_true]
       cases ok with
-      | true =>
-        simp [wmaLoop, next_fresh, Out.isYield] at hc ⊢; omega
+      | true => simp; omega
       | false =>
-        have := ih ⟨a, false, c, x, wd⟩ (calls + 1) (by simp at hc ⊢; omega) (Or.inr (by omega))
-        simp only [wmaLoop, next_fresh, Out.isYield, if_true, Bool.false_eq_true, if_false]
-        refine ⟨this.1, this.2.1, fun h => this.2.2 ?_⟩
-        simp at h ⊢; omega
-    | false =>
-      have hpos : 0 < calls := by simpa using h1
-      have hcz : (calls == 0) = false := by simp; omega
-      by_cases hd : 0 < o.maxRetries ∧ o.maxRetries ≤ (a : Int)
-      · simp [wmaLoop, next_done _ _ _ _ _ _ hd, Out.isYield, hcz] at hc ⊢; omega
-      · by_cases hs : (c || x) = true
-        · simp [wmaLoop, next_halted _ _ _ _ _ _ hd hs, Out.isYield, hcz] at hc ⊢; omega
-        · have hc' : c = false := by cases c <;> simp_all
-          have hx' : x = false := by cases x <;> simp_all
-          subst hc' hx'
-          cases w with
-          | closerFires =>
-            simp [wmaLoop, next_closerFires _ _ _ hd, Out.isYield, hcz] at hc ⊢; omega
-          | ctxFires =>
-            simp [wmaLoop, next_ctxFires _ _ _ hd, Out.isYield, hcz] at hc ⊢; omega
-          | elapses u =>
-            have hlt : a < m := by rw [ho] at hd; omega
-            cases ok with
-            | true =>
-              simp [wmaLoop, next_elapses _ _ _ _ hd, Out.isYield] at hc ⊢; omega
-            | false =>
-              have := ih ⟨a + 1, false, false, false, wd + 1⟩ (calls + 1)
-                (by simp at hc ⊢; omega) (Or.inr (by omega))
-              simp only [wmaLoop, next_elapses _ _ _ _ hd, Out.isYield, if_true, Bool.false_eq_true, if_false]
-              refine ⟨this.1, this.2.1, fun h => this.2.2 ?_⟩
-              simp at h ⊢; omega
+        simp only [Bool.false_eq_true, if_false]
+        have := ih (next o s w).1 (calls + 1) (by omega)
+        refine ⟨this.1, by omega, this.2.2.1, fun h => this.2.2.2 (by omega)⟩
+    · simp only [hg, if_false]
+      exact ⟨hc, Nat.le_refl _, by simp, by simp⟩
 
+/-- with an immediate attempt pending and `n ≥ 1`, a loop that has returned made at least one call -/
+theorem wmaLoop_calls_pos (o : Opts) (n : Int) (hn : 1 ≤ n) (a : Nat) (c x : Bool) (wd : Nat)
+    (e : Wait × Bool) (env : List (Wait × Bool)) :
+    1 ≤ (wmaLoop o n ⟨a, true, c, x, wd⟩ 0 (e :: env)).calls := by
+  obtain ⟨w, ok⟩ := e
+  have hg : ((0 : Nat) : Int) < n ∧ (next o ⟨a, true, c, x, wd⟩ w).2.isYield = true := by
+    simp [next_fresh, Out.isYield]; omega
+  simp only [wmaLoop, hg, and_self, if_true]
+  cases ok with
+  | true => simp
+  | false =>
+    simp only [Bool.false_eq_true, if_false]
+    exact (wmaLoop_spec o n env _ 1 (by omega)).2.1
 
 end Shk.Retry
